@@ -14,6 +14,7 @@ type TextOutputFileCursor struct {
 	lineno int
 	fh *os.File
 	pretend bool
+	err error
 }
 
 
@@ -38,23 +39,28 @@ func NewTextOutputFileCursor(filename string) (*TextOutputFileCursor, error) {
 
 func (toc *TextOutputFileCursor) Println(line string) {
 	toc.lineno++
-	if !toc.pretend {
-		fmt.Fprintln(toc.fh, line)
+	if !toc.pretend && toc.err == nil {
+		_, toc.err = fmt.Fprintln(toc.fh, line)
 	}
 }
 
 
 func (toc *TextOutputFileCursor) Printf(msg string, parms...interface{}) {
 	toc.lineno++
-	if !toc.pretend {
-		fmt.Fprintf(toc.fh, msg, parms...)
+	if !toc.pretend && toc.err == nil {
+		_, toc.err = fmt.Fprintf(toc.fh, msg, parms...)
 	}
 }
 
 
-func (toc *TextOutputFileCursor) Close() {
+// Close closes the file and returns the first error met while writing or closing
+func (toc *TextOutputFileCursor) Close() error {
 	if !toc.pretend {
-		toc.fh.Close()
+		err := toc.fh.Close()
+		if toc.err == nil {
+			toc.err = err
+		}
 	}
+	return toc.err
 }
 
